@@ -33,6 +33,11 @@ func (e *Err) Error() string { return e.Keyword + " at " + e.Path + ": " + e.Msg
 type Ctx struct {
 	Components map[string]*jsonv.Value
 	depth      int
+	// TolerateAllOfAdditional: additionalProperties of an object schema that is combined with allOf is not
+	// applied (the recorded finding "allOf beside additionalProperties"); Tolerated counts the places, so that
+	// whatever else is wrong with the instance is still found
+	TolerateAllOfAdditional bool
+	Tolerated               int
 }
 
 var keywords = map[string]bool{"type": true, "properties": true, "required": true, "additionalProperties": true, "items": true, "minItems": true, "maxItems": true, "enum": true, "minimum": true, "maximum": true, "exclusiveMinimum": true, "exclusiveMaximum": true, "minLength": true, "maxLength": true, "pattern": true, "format": true, "multipleOf": true, "nullable": true, "allOf": true, "anyOf": true, "oneOf": true, "not": true, "$ref": true, "example": true, "description": true, "title": true, "default": true, "uniqueItems": true, "minProperties": true, "maxProperties": true, "readOnly": true, "writeOnly": true, "deprecated": true, "discriminator": true, "xml": true, "externalDocs": true}
@@ -334,6 +339,10 @@ func Validate(inst, s *jsonv.Value, path string, ctx *Ctx) error {
 			}
 			if ap := s.Get("additionalProperties"); ap != nil {
 				combined := s.Has("allOf") || strings.Contains(path, "/allOf")
+				if combined && ctx.TolerateAllOfAdditional {
+					ctx.Tolerated++
+					continue
+				}
 				if ap.Kind == jsonv.Bool {
 					if !ap.Bool {
 						return &Err{Keyword: "additionalProperties", Path: path, Msg: "unexpected property " + k, AllOfVsAdditional: combined}
